@@ -1139,7 +1139,7 @@ fn adapters(rep: &mut Report, _args: &Args) {
     use fuse_backend_rs::file_buf::{FileVolatileBuf, FileVolatileSlice};
     use std::sync::atomic::Ordering;
     use vm_memory::{Bytes, VolatileSlice};
-    if rep.shard != 0 {
+    if !rep.mine0((1 << 62) + 1) {
         return;
     }
     // Oracle: the adapter must behave exactly like vm-memory's own plain view (VolatileSlice<()>)
